@@ -7,7 +7,7 @@
    _enopt_config.py, with a VariableScaler as the optional validation context.
    A raw configuration (the dictionary after the array conversions of validated_types.py: every
    array field is a list, a scalar is a list of length one) and a validated configuration have the
-   same record type, so that `dump` is the identity and re-validation is `validate None`.
+   same record type, so that `dump` is the identity and re-validation is `validate None None`.
    Frozenness is carried as the per-class sequence of _mutable()/_immutable() calls (the table itself
    is generated from the source, Gen/Gen_C18.v).  Definitions only. *)
 From Coq Require Import String.
@@ -207,17 +207,25 @@ Definition apply_transformation (ctx : option scaler) (vars : variables) (l : li
   match ctx with None => Ok l | Some sc => lin_to_opt sc l end.
 
 (* ---- NonlinearConstraintsConfig ------------------------------------------------------------------------ *)
-Definition validate_nonlinear (nl : nonlinear) : outcome nonlinear :=
-  p <- bcast_pair (n_lower nl) (n_upper nl) ;;
-  _ <- guard (negb (any_gt (fst p) (snd p))) ;;
-  Ok {| n_lower := fst p; n_upper := snd p |}.
+(* nls = the scales of a NonLinearConstraintTransform in the validation context whose bounds_to_optimizer divides the
+   bounds by positive scales (ropt defines only the abstract class; the harness supplies this one) *)
+Definition nl_ok (k : nat) (nls : option (list Q)) : bool :=
+  match nls with None => true | Some s => Nat.eqb (length s) k && forallb (fun x => Qltb 0 x) s end.
 
-(* ---- EnOptConfig.model_validate(raw, context=ctx) -------------------------------------------------------- *)
-Definition validate (E : enums) (ctx : option scaler) (raw : config) : outcome config :=
+Definition validate_nonlinear (nls : option (list Q)) (nl : nonlinear) : outcome nonlinear :=
+  p <- bcast_pair (n_lower nl) (n_upper nl) ;;
+  _ <- supported (nl_ok (length (fst p)) nls) ;;
+  let lo := match nls with None => fst p | Some s => map2 ediv (fst p) s end in
+  let up := match nls with None => snd p | Some s => map2 ediv (snd p) s end in
+  _ <- guard (negb (any_gt lo up)) ;;
+  Ok {| n_lower := lo; n_upper := up |}.
+
+(* ---- EnOptConfig.model_validate(raw, context=OptModelTransforms(variables=ctx, nonlinear_constraints=nls)) ------ *)
+Definition validate (E : enums) (ctx : option scaler) (nls : option (list Q)) (raw : config) : outcome config :=
   vars <- validate_variables E ctx (c_vars raw) ;;
   ow <- normalize (c_obj_w raw) ;;
   lin <- omap validate_linear_fields (c_lin raw) ;;
-  nl <- omap validate_nonlinear (c_nonlin raw) ;;
+  nl <- omap (validate_nonlinear nls) (c_nonlin raw) ;;
   rw <- normalize (c_real_w raw) ;;
   g <- validate_gradient_fields E (c_grad raw) ;;
   lin <- omap (apply_transformation ctx vars) lin ;;
@@ -284,3 +292,33 @@ Definition final_immutable (c : cclass) : bool :=
 
 Definition find_class (tbl : list cclass) (name : string) : option cclass :=
   find (fun c => String.eqb (cc_name c) name) tbl.
+
+(* ---- where the arrays stored in a configuration object come from ------------------------------------------- *)
+(* The expression assigned to an array field (self.<field> = e, model_copy(update={"field": e}),
+   values.update(field=e) before model_construct of the values), classified by the translator:
+     SImmutableArray         immutable_array(...)            (utils.py: np.array(...); setflags(write=False))
+     SNormalize              normalize(...)                  (returns immutable_array(...))
+     SBroadcast1d            broadcast_1d_array(...)         (immutable_array([]) or np.broadcast_to(immutable_array(a), ..))
+     SBroadcastToImmutable   np.broadcast_to(immutable_array(...), ...)   (a view of a read-only array is read-only)
+     SBroadcastArrays        an element of broadcast_arrays(...)          (tuple(immutable_array(r) ...))
+     SField                  self.<array field>              (converted by the BeforeValidator of its annotated type)
+     SOther                  anything else (np.where, arithmetic, a transform's result, ...): a fresh writable array
+   A local variable is classified by ALL expressions assigned to it in the function. *)
+Inductive asrc := SImmutableArray | SNormalize | SBroadcast1d | SBroadcastToImmutable | SBroadcastArrays | SField | SOther.
+
+Definition src_immutable (s : asrc) : bool := match s with SOther => false | _ => true end.
+
+Record astore := {
+  as_class : string;          (* configuration class *)
+  as_site : string;           (* validator / method holding the store *)
+  as_field : string;          (* array field stored into *)
+  as_sources : list asrc      (* the expressions that can reach the store *)
+}.
+
+(* the stored array is read-only: at least one source, and every source yields a read-only array *)
+Definition store_immutable (s : astore) : bool :=
+  match as_sources s with [] => false | l => forallb src_immutable l end.
+
+(* annotated array types of validated_types.py: name, classification of the value returned by its converter *)
+Definition converter_immutable (c : string * asrc) : bool :=
+  match snd c with SImmutableArray => true | _ => false end.
